@@ -54,6 +54,10 @@ def probes():
     for ws in ([], ["W1"], ["W1", "W2"], ["W1", "W2", "W3"]):
         for n in (-1, 0, 1, 2, 3, 4):
             add({"op": "select", "workers": ws, "n": n, "kind": "min"})
+    # selections that list cumulative workers themselves: the count is checked against the LISTED entries
+    for ws in (["W1", "CW"], ["CW", "CU"], ["W1", "W2", "CW"], ["CW"]):
+        for n in (0, 1, 2, 3, 4, 5):
+            add({"op": "select", "workers": ws, "n": n, "kind": "min"})
     for k in ("exact", "min", "max"):
         add({"op": "select", "workers": ["W2", "W3"], "n": 1, "kind": k, "name": "mysel"})
     for h in (None, -1, 0, 1, 5):
